@@ -156,7 +156,31 @@ def r1(ctx: Ctx):
   upd = [s for s in walk_no_nested(fi.node) if isinstance(s, ast.AugAssign)
          and unparse(s.target) == sizes and isinstance(s.op, ast.Add)]
   from mlmverif import pat
-  ok_upd = batch and any(pat.match(f'[_batch_size($c) for $c in {batch}]', s.value) is not None for s in upd)
+  from mlmverif.core import parent_map
+  pm = parent_map(fi.node)
+
+  def _measured(s):
+    # the sizes of this batch, written in place or named just before in the same block (the batch not rebound between)
+    v = s.value
+    if isinstance(v, ast.Name):
+      body = next((b for b in (getattr(pm.get(s), f, None) for f in ('body', 'orelse', 'finalbody'))
+                   if isinstance(b, list) and s in b), None)
+      if body is None:
+        return None
+      before = body[:body.index(s)]
+      defs = [k for k, b in enumerate(before) if isinstance(b, ast.Assign) and len(b.targets) == 1
+              and unparse(b.targets[0]) == v.id]
+      stores = [y for y in walk_no_nested(fi.node) if isinstance(y, ast.Name) and y.id == v.id and isinstance(y.ctx, ast.Store)]
+      if len(defs) != 1 or len(stores) != 1:
+        return None
+      if any(isinstance(y, ast.Name) and y.id == batch and isinstance(y.ctx, ast.Store)
+             for b in before[defs[0] + 1:] for y in ast.walk(b)):
+        return None
+      v = before[defs[0]].value
+    return v
+
+  ok_upd = batch and any((_measured(s) is not None and pat.match(f'[_batch_size($c) for $c in {batch}]', _measured(s)) is not None)
+                         for s in upd)
   if ok_upd:
     ctx.ok(rule, fi, f'{sizes} += sizes of the same batch', upd[0])
   else:
@@ -716,6 +740,11 @@ from mlmverif.selfcheck import B, OK  # noqa: E402
 
 _F = 'utils/iter_utils.py'
 VARIANTS = [
+    B('pending-sizes-named-from-the-previous-batch', 'utils/iter_utils.py',
+      "      batch_sizes += [_batch_size(column) for column in batch]",
+      "      batch_sizes += sizes_of_last_batch\n      sizes_of_last_batch = [_batch_size(column) for column in batch]", 'R-C19-1'),
+    OK('pending-sizes-through-a-local', 'utils/iter_utils.py',
+       "      batch_sizes += [_batch_size(column) for column in batch]", "      sizes_of_this_batch = [_batch_size(column) for column in batch]\n      batch_sizes += sizes_of_this_batch"),
     OK('pending-row-counter-int64', 'utils/iter_utils.py',
        "  batch_sizes = np.zeros(num_columns, dtype=int)\n  exhausted = False", "  batch_sizes = np.zeros(num_columns, dtype=np.int64)\n  exhausted = False"),
     B('pending-row-counter-sixteen-bits', 'utils/iter_utils.py',
